@@ -5,7 +5,7 @@ CONSTANTS
   MaxMsg = 4
   Caps <- CapsZ
   Grows <- GrowsQ
-  Pres <- PresG
+  Pres <- PresQ
   CapMax = 8
 CONSTRAINT Bound
 VIEW Skel
